@@ -13,6 +13,7 @@ package rocsv
 //@   binds ctx destination
 //@   calls CompleteWithContext ErrorWithContext NextWithContext Read
 //@   params ctx destination
+//@   scope ctx destination reader
 //@   track destination.* loop.*
 //@   ensures [end-of-input-completes|C18] res(call.Reader.Read, 1) == global_EOF ==> trace(loop.L0, destination.CompleteWithContext(ctx))
 //@   ensures [a-read-error-is-forwarded|C18] res(call.Reader.Read, 1) != global_EOF ==> trace(loop.L0, destination.ErrorWithContext(ctx, res(call.Reader.Read, 1)))
@@ -23,6 +24,7 @@ package rocsv
 
 //@ operator NewCSVWriter
 //@   props C18 C09
+//@   scope count ctx destination err row source subscriberCtx writer
 //@   ghost n int = 0
 //@   inv count == n && n >= 0
 //@   track call.Writer.Write call.Writer.Flush call.Writer.Error
